@@ -108,6 +108,7 @@ func specRecLen(n uint32) uint32 { return (16 + n + 31) / 32 * 32 }
 //	         increase is asserted non-negative and zero below the limits
 
 //@ ghost tried int
+//@ ghost nopath bool
 //@ ghost touched bool
 //@ ghost refreshed bool
 //@ ghost ledger wide
@@ -572,9 +573,15 @@ func specMapped(m *mappedFile) bool {
 //@   modifies nothing
 
 // EncodeStack: every encoded name fits the counter-name limit and is visibly marked when truncated.
+// The ditto mark stands for "the import path of the frame above": a frame whose
+// symbol has no import path is rendered with an empty path, never with a ditto,
+// and a ditto is written only over a non-empty previous path.
 //@ contract EncodeStack
 //@   ensures len(result) <= maxNameLen
-//@   modifies nothing
+//@   at call cutLastDot#1: after ghost $nopath = result0 == ""
+//@   at call Sprintf#1: assert ($nopath ==> path == "") && (path == "\"" ==> lastImport != "")
+//@   at call Sprintf#2: assert ($nopath ==> path == "") && (path == "\"" ==> lastImport != "")
+//@   modifies $nopath
 
 //@ contract (*StackCounter).Inc
 //@   requires 0 <= c.depth && c.depth <= 1<<20
